@@ -406,8 +406,9 @@ def floordiv(x, y, out=None, out_like=None, sizing='optimal', method='raw', **kw
         return real_part + 1j*imag_part
     
     def _floordiv_raw(x, y, n_frac):
-        precision_cast = (lambda m: np.array(m, dtype=object)) if n_frac >= _n_word_max else (lambda m: m)
-        return ((x.val * precision_cast(2**(n_frac - x.n_frac))) // (y.val * precision_cast(2**(n_frac - y.n_frac)))) * precision_cast(2**n_frac)
+        n_bits = max(x.n_word + max(n_frac - x.n_frac, 0), y.n_word + max(n_frac - y.n_frac, 0)) + max(n_frac, 0)
+        precision_cast = _raw_cast(x, y, n_bits, n_frac)
+        return ((precision_cast(x.val) * precision_cast(2**(n_frac - x.n_frac))) // (precision_cast(y.val) * precision_cast(2**(n_frac - y.n_frac)))) * precision_cast(2**n_frac)
 
     def _floordiv_raw_complex(x, y, n_frac):
         precision_cast = (lambda m: np.array(m, dtype=object)) if n_frac >= _n_word_max else (lambda m: m)
@@ -443,8 +444,9 @@ def truediv(x, y, out=None, out_like=None, sizing='optimal', method='raw', **kwa
         return x / y
 
     def _truediv_raw(x, y, n_frac):
-        precision_cast = (lambda m: np.array(m, dtype=object)) if n_frac >= _n_word_max else (lambda m: m)
-        return (x.val * precision_cast(2**(n_frac - x.n_frac + y.n_frac))) // y.val
+        n_bits = max(x.n_word + max(n_frac - x.n_frac + y.n_frac, 0), y.n_word)
+        precision_cast = _raw_cast(x, y, n_bits, n_frac)
+        return (precision_cast(x.val) * precision_cast(2**(n_frac - x.n_frac + y.n_frac))) // precision_cast(y.val)
         # return np.floor_divide(np.multiply(x.val, precision_cast(2**(n_frac - x.n_frac + y.n_frac))), y.val)
 
     def _truediv_raw_complex(x, y, n_frac):
@@ -480,8 +482,9 @@ def mod(x, y, out=None, out_like=None, sizing='optimal', method='raw', **kwargs)
     def _mod_repr(x, y):
         return x % y
     def _mod_raw(x, y, n_frac):
-        precision_cast = (lambda m: np.array(m, dtype=object)) if n_frac >= _n_word_max else (lambda m: m)
-        return (x.val * precision_cast(2**(n_frac - x.n_frac))) % (y.val * precision_cast(2**(n_frac - y.n_frac)))
+        n_bits = max(x.n_word + max(n_frac - x.n_frac, 0), y.n_word + max(n_frac - y.n_frac, 0))
+        precision_cast = _raw_cast(x, y, n_bits, n_frac)
+        return (precision_cast(x.val) * precision_cast(2**(n_frac - x.n_frac))) % (precision_cast(y.val) * precision_cast(2**(n_frac - y.n_frac)))
 
     if not isinstance(x, Fxp):
         x = Fxp(x)
